@@ -1,7 +1,7 @@
 import Driver.Util
 import SaModel.Read.Access
 /- suite `access` (C13): histories over the real `Deserializer`, mirrored step by step -/
-namespace Driver.Access
+namespace Driver.Suites.Access
 open Lean Driver SaModel SaModel.Access
 
 def parseOp (j : Json) : Except String Op := do
@@ -74,4 +74,4 @@ def handle (j : Json) : Except String Verdict := do
                sig := s!"C13/{opName op}",
                why := s!"op #{i} {opName op}: model {modelOuts.getD i Json.null}, impl {impl.getD i Json.null}" }
 
-end Driver.Access
+end Driver.Suites.Access
